@@ -538,7 +538,8 @@ static void fam_tokens_rec(int depth, int maxdepth, size_t len)
 static void fam_tokens(void)
 {
 	cur_fam = "F1-tokens";
-	fam_tokens_rec(0, mc_tier ? 4 : 3, 0);
+	/* under the sanitizers with the reset probes (C04) the family bound stays at the quick size */
+	fam_tokens_rec(0, (mc_tier && opt_mode != 1) ? 4 : 3, 0);
 }
 
 static void fam_bytes(const char *name, const char *prefix, const char *alphabet, int maxlen, const char *suffix)
@@ -569,7 +570,7 @@ static void fam_bytes(const char *name, const char *prefix, const char *alphabet
 }
 static void fam_scanners(void)
 {
-	int d = mc_tier ? 0 : 1;
+	int d = (mc_tier && opt_mode != 1) ? 0 : 1;
 	fam_bytes("F2-number-top", "", "-+01.eE", 6 - d, "");
 	fam_bytes("F2-number-in-array", "[", "-+01.eE", 5 - d, "]");
 	fam_bytes("F2-escape", "\"", "\"\\ud80can/", 7 - d - d, "");
@@ -618,7 +619,7 @@ static void fam_docs(void)
 	cur_fam = "F3-T13";
 	V *leaves[8];
 	const char *keys[] = {"a", "b"};
-	struct vfam g = {.width = mc_tier ? 3 : 2, .leaves = leaves, .nleaves = 8, .keys = keys, .nkeys = 2, .dup_keys = 1};
+	struct vfam g = {.width = (mc_tier && opt_mode != 1) ? 3 : 2, .leaves = leaves, .nleaves = 8, .keys = keys, .nkeys = 2, .dup_keys = 1};
 	vfam_init(&g, 1);
 	for (uint64_t i = 0; i < g.count[1]; i++)
 	{
